@@ -65,6 +65,9 @@ type c04In struct {
 	Staked   [][]byte // addresses the registry confirms
 	// handshakes run before this one on the same Service (same local configuration); not emitted
 	Prelude []c04In `json:",omitempty"`
+	// end-to-end prelude step: keep this remote host (and its transport connection) alive for the rest
+	// of the session, so that a later step with the same key is a SECOND connection of the same peer id
+	KeepOpen bool `json:",omitempty"`
 }
 
 // ---- observation -----------------------------------------------------------------------------------
@@ -82,6 +85,7 @@ type c04Wrap struct {
 	Closed     bool  // the transport connection to the subject is gone (seen from the remote's host)
 	Record     *c04Note // registered remotes: what a follow-up Connect returns (isConnected short cut)
 	SecondHs   bool     // that follow-up Connect started another handshake
+	Gone       []c04Note // notifier.Disconnected calls during this handshake
 }
 
 type c04Note struct {
@@ -97,6 +101,7 @@ type c04Obs struct {
 	Lookups  [][]byte
 	Verifies [][2][]byte
 	Wrap     *c04Wrap
+	Prior    *c04Note // registry entry of the remote's peer id just before this handshake (sessions with KeepOpen)
 	Note     string `json:",omitempty"`
 }
 
@@ -472,13 +477,21 @@ func c04CoqCase(id int, in c04In, obs c04Obs) string {
 		for _, n := range obs.Wrap.Notified {
 			notes = append(notes, coqPair(coqBytes(n.Addr), coqZ(n.Role)))
 		}
+		var gone []string
+		for _, n := range obs.Wrap.Gone {
+			gone = append(gone, coqPair(coqBytes(n.Addr), coqZ(n.Role)))
+		}
 		rec := "None"
 		if r := obs.Wrap.Record; r != nil {
 			rec = "(Some " + coqPair(coqBytes(r.Addr), coqZ(r.Role)) + ")"
 		}
 		wrap = "(Some " + coqRecord("w_registered", coqBool(obs.Wrap.Registered), "w_notified", coqList(notes),
 			"w_block", coqZ(obs.Wrap.Block), "w_closed", coqBool(obs.Wrap.Closed), "w_record", rec,
-			"w_second_hs", coqBool(obs.Wrap.SecondHs)) + ")"
+			"w_second_hs", coqBool(obs.Wrap.SecondHs), "w_gone", coqList(gone)) + ")"
+	}
+	prior := "None"
+	if obs.Prior != nil {
+		prior = "(Some " + coqPair(coqBytes(obs.Prior.Addr), coqZ(obs.Prior.Role)) + ")"
 	}
 	cfg := coqRecord("own_type", coqZ(int64(in.OwnType)), "own_token", coqStr(in.OwnToken),
 		"own_addr", coqBytes(l.addr), "own_sig", coqBytes(l.ownSig))
@@ -487,7 +500,7 @@ func c04CoqCase(id int, in c04In, obs c04Obs) string {
 		"staked", coqList(staked),
 		"o_res", coqN(uint64(obs.Res)), "o_addr", coqBytes(obs.Addr), "o_role", coqZ(obs.Role),
 		"o_written", coqList(written), "o_lookups", coqList(lookups), "o_verifies", coqList(verifies),
-		"o_wrap", wrap)
+		"o_wrap", wrap, "prior", prior)
 }
 
 // ---- end to end: a real libp2p.Service against a raw host ----------------------------------------------
@@ -495,6 +508,7 @@ func c04CoqCase(id int, in c04In, obs c04Obs) string {
 type c04Notifier struct {
 	mu    sync.Mutex
 	notes []c04Note
+	gone  []c04Note
 	ch    chan struct{}
 }
 
@@ -507,7 +521,16 @@ func (n *c04Notifier) Connected(p p2p.Peer) {
 	default:
 	}
 }
-func (n *c04Notifier) Disconnected(p2p.Peer) {}
+func (n *c04Notifier) Disconnected(p p2p.Peer) {
+	n.mu.Lock()
+	n.gone = append(n.gone, c04Note{Addr: p.EthAddress.Bytes(), Role: int64(p.Type)})
+	n.mu.Unlock()
+}
+func (n *c04Notifier) takenGone() []c04Note {
+	n.mu.Lock()
+	defer n.mu.Unlock()
+	return append([]c04Note{}, n.gone...)
+}
 func (n *c04Notifier) taken() []c04Note {
 	n.mu.Lock()
 	defer n.mu.Unlock()
@@ -641,17 +664,23 @@ func c04RunE2E(in c04In, slow int) (obs c04Obs, err error) {
 	nt := &c04Notifier{ch: make(chan struct{}, 8)}
 	svc.SetNotifier(nt)
 	// the handshakes of a session run one after the other on this one Service
+	var kept []host.Host
+	defer func() {
+		for _, h := range kept {
+			h.Close()
+		}
+	}()
 	for _, p := range in.Prelude {
-		if _, err := c04E2EStep(svc, nt, reg, p, slow); err != nil {
+		if _, err := c04E2EStep(svc, nt, reg, p, slow, &kept); err != nil {
 			return obs, fmt.Errorf("prelude: %w", err)
 		}
 	}
-	return c04E2EStep(svc, nt, reg, in, slow)
+	return c04E2EStep(svc, nt, reg, in, slow, &kept)
 }
 
-func c04E2EStep(svc *libp2p.Service, nt *c04Notifier, reg *c04Registry, in c04In, slow int) (obs c04Obs, err error) {
+func c04E2EStep(svc *libp2p.Service, nt *c04Notifier, reg *c04Registry, in c04In, slow int, kept *[]host.Host) (obs c04Obs, err error) {
 	nt.mu.Lock()
-	nt.notes = nil
+	nt.notes, nt.gone = nil, nil
 	nt.mu.Unlock()
 	for len(nt.ch) > 0 {
 		<-nt.ch
@@ -672,10 +701,14 @@ func c04E2EStep(svc *libp2p.Service, nt *c04Notifier, reg *c04Registry, in c04In
 		return err == nil
 	}
 	defer func() {
+		if in.KeepOpen {
+			*kept = append(*kept, adv)
+			return
+		}
 		// leave the Service without this remote before the next handshake of the session
 		adv.Close()
 		until := time.Now().Add(time.Duration(3*slow) * time.Second)
-		for registered() && time.Now().Before(until) {
+		for len(*kept) == 0 && registered() && time.Now().Before(until) {
 			time.Sleep(2 * time.Millisecond)
 		}
 	}()
@@ -697,6 +730,18 @@ func c04E2EStep(svc *libp2p.Service, nt *c04Notifier, reg *c04Registry, in c04In
 
 	var hsCount int32
 	incomplete := false
+	// the registry entry an earlier, still connected host instance of this remote left behind
+	var prior *c04Note
+	for _, h := range *kept {
+		if h.ID() == adv.ID() && registered() {
+			hi, _ := (&peer.AddrInfo{ID: h.ID(), Addrs: h.Addrs()}).MarshalJSON()
+			if p, err := svc.Connect(ctx, hi); err == nil {
+				prior = &c04Note{Addr: p.EthAddress.Bytes(), Role: int64(p.Type)}
+			}
+			break
+		}
+	}
+	obs.Prior = prior
 	advInfo, err := (&peer.AddrInfo{ID: adv.ID(), Addrs: adv.Addrs()}).MarshalJSON()
 	if err != nil {
 		return obs, err
@@ -704,7 +749,18 @@ func c04E2EStep(svc *libp2p.Service, nt *c04Notifier, reg *c04Registry, in c04In
 	// after the exchange: is the transport connection gone ("the connection refused"), and what does the
 	// registry hold (read back through a follow-up Connect, which must take the isConnected short cut)
 	aftermath := func(w *c04Wrap) {
-		gone := func() bool { return len(adv.Network().ConnsToPeer(subjID)) == 0 }
+		// every live host instance of this remote (same peer id): this one and the kept ones
+		gone := func() bool {
+			if len(adv.Network().ConnsToPeer(subjID)) != 0 {
+				return false
+			}
+			for _, h := range *kept {
+				if h.ID() == adv.ID() && len(h.Network().ConnsToPeer(subjID)) != 0 {
+					return false
+				}
+			}
+			return true
+		}
 		if obs.Res != 0 {
 			until := time.Now().Add(time.Duration(3*slow) * time.Second)
 			for !gone() && time.Now().Before(until) {
@@ -712,6 +768,17 @@ func c04E2EStep(svc *libp2p.Service, nt *c04Notifier, reg *c04Registry, in c04In
 			}
 		}
 		w.Closed = gone()
+		if obs.Res != 0 && w.Closed && prior != nil {
+			// the registry drops the entry when the last connection is reported closed
+			until := time.Now().Add(time.Duration(3*slow) * time.Second)
+			for (registered() || len(nt.takenGone()) == 0) && time.Now().Before(until) {
+				time.Sleep(2 * time.Millisecond)
+			}
+		}
+		if obs.Res != 0 {
+			w.Registered = registered()
+		}
+		w.Gone = nt.takenGone()
 		if w.Registered {
 			n0 := atomic.LoadInt32(&hsCount)
 			lk := reg.taken()
@@ -777,7 +844,8 @@ func c04E2EStep(svc *libp2p.Service, nt *c04Notifier, reg *c04Registry, in c04In
 		switch {
 		case len(notes) > 0:
 			obs.Res, obs.Addr, obs.Role = 0, notes[0].Addr, notes[0].Role
-		case w.Registered:
+		case w.Registered && prior == nil:
+			// registered without a notification (an entry that was there before does not count)
 			obs.Res, obs.Addr, obs.Role = 0, advAddr, -2
 		default:
 			obs.Res = 8
@@ -1276,7 +1344,30 @@ func TestVerifC04(t *testing.T) {
 		in = mk("bidderx")
 		in.Staked = nil
 		run("e2e-odd-role", in)
-		// sessions on one Service: a provider enrolled while staked comes back after losing its stake
+		// two transport connections of one peer id: enrolled on the first (host instance kept alive), then a
+		// second host instance with the same key runs a handshake that must be refused: afterwards no
+		// connection of that peer id may be left, the registry must not hold it, Disconnected must be told
+		if mode == 1 {
+			for _, pmode := range []int{1, 2} {
+				first := func(rr string) c04In {
+					f := g.honest(pmode-1, 2, rr, "test", "test")
+					f.Mode, f.KeepOpen = pmode, true
+					return f
+				}
+				in = mk("provider")
+				in.Staked = nil
+				in.Prelude = []c04In{first("provider")}
+				run("e2e-two-conn-stake-withdrawn", in)
+				in = mk("bidder")
+				in.Script[in.reqIdx()].Raw = c04ReqWire([]byte("bidder"), []byte("test"), g.sigVariant(7, rk, "bidder", "test"))
+				in.Prelude = []c04In{first("bidder")}
+				run("e2e-two-conn-bad-signature", in)
+				in = mk("bidder")
+				in.Script[in.echoIdx()].Raw = c04RespWire(c04Addr(g.keys[0]), []byte("provider"))
+				in.Prelude = []c04In{first("provider")}
+				run("e2e-two-conn-wrong-echo", in)
+			}
+		}
 		for _, pmode := range []int{mode, 3 - mode} {
 			first := g.honest(pmode-1, 2, "provider", "test", "test")
 			first.Mode = pmode
